@@ -27,6 +27,9 @@ def main():
         for rel in (False, True):
             if check.build_replay(crate, rel) is None:
                 rc |= 1
+    import tv_check
+    if not tv_check.build_tvdump():
+        rc |= 1
     sys.exit(1 if rc else 0)
 
 
